@@ -84,6 +84,11 @@ def check_find(cfg, w, rep, lf):
             short(lf.path), len(folds)), loc=body.loc(), config=cfg, rule="b-full-traversal")
         return
     b, blk, t = folds[0]
+    for blk_, t_ in inplace_changes_of_records(w, body, set(R.bucket_readers)):
+        rep.violation("b-inplace:%s" % key,
+                      "lookup `%s` changes the record vector in place (`%s`) before folding over it: the most recent write is the last "
+                      "record in file order, which this no longer is" % (short(lf.path), t_.callee.path.rsplit("::", 1)[-1]),
+                      loc=span_str(t_.span), config=cfg, rule="b-full-traversal")
     # iterator = into_iter of the validated record stream of BUCKET_PATH(cache, key)
     it = w.sym.of_operand(b, t.args[0])
     ok_src = False
